@@ -158,6 +158,12 @@ func termModelValue(t *Term) string {
 
 // extCall models a call to a registered pure library function.
 func (p *Path) extCall(name string, args []Value) (Value, bool) {
+	if (name == "strings.IndexByte" || name == "strings.IndexRune") && len(args) == 2 {
+		// a constant ASCII byte/rune: the same as strings.Index with a one-byte separator (whose contract is axiomatised)
+		if c, ok := args[1].(*Term); ok && c.IsConst() && c.Sort == SInt && c.Int64() >= 0 && c.Int64() < 128 {
+			return p.extCall("strings.Index", []Value{args[0], mkStr(string(rune(c.Int64())))})
+		}
+	}
 	f, ok := extFuncs[name]
 	if !ok {
 		return nil, false
